@@ -90,6 +90,7 @@ func TestVerifDemoC17(t *testing.T) {
 	})
 	ctx, cancel := context.WithCancel(context.Background())
 	server := NewServer(ctx, h, &tls.Config{Certificates: []tls.Certificate{cert}, NextProtos: []string{"h2", "http/1.1"}})
+	server.TLSHandshakeTimeout = 10 * time.Second // the binary's default (-timeout-tls-handshake)
 	ln := &demoPipeListener{conns: make(chan net.Conn), closed: make(chan struct{})}
 	serveDone := make(chan error, 1)
 	go func() { serveDone <- server.Serve(ln) }()
